@@ -39,6 +39,8 @@ func runC04(c *Ctx) {
 	// aborted run compares equal (shared with C01/C02/C09/C17)
 	c.R.Rule("R04.14", "the stat of every non-directory carries its on-disk size, recorded after the inode bookkeeping")
 	statSizeAlways(c, "R04.14")
+	r04_15(c, "R04.15")
+	errDisciplineAll(c, "R04.16", 1, "fsutil", "util")
 }
 
 // transferFuncs: non-test functions of packages fsutil and copy.
@@ -1011,4 +1013,194 @@ func unwrapKey(k string) string {
 		k = k[len("wrap(") : len(k)-1]
 	}
 	return k
+}
+
+// R04.15: a walk callback honours the error it is handed.
+//
+// filepath.WalkDir, FS.Walk and fsutil.Walk report a failure to read an entry
+// by calling the callback with a non-nil error (and possibly a nil entry). A
+// callback that goes on as if nothing happened either drops the failure or
+// dereferences the missing entry. For every function literal of the shape
+// func(string, DirEntry|FileInfo, error) error: with the error argument
+// non-nil (and none of the "tolerable error" predicates true) no success
+// return is reachable.
+func r04_15(c *Ctx, rule string) {
+	c.R.Rule(rule, "every walk callback (func(path, entry, err) error literal) of the module: with a non-nil error argument that no tolerance predicate accepts, no success return is reachable")
+	n := 0
+	for _, fn := range c.P.AllModFuncs() {
+		if fn.Parent() == nil && c.P.Encloser(fn) == nil {
+			continue
+		}
+		sig := fn.Signature
+		if sig.Params().Len() != 3 || sig.Results().Len() != 1 {
+			continue
+		}
+		if eng.TypeStr(sig.Params().At(0).Type()) != "string" || eng.TypeStr(sig.Params().At(2).Type()) != "error" || eng.TypeStr(sig.Results().At(0).Type()) != "error" {
+			continue
+		}
+		if t := eng.TypeStr(sig.Params().At(1).Type()); t != "io/fs.DirEntry" && t != "io/fs.FileInfo" && t != "os.DirEntry" && t != "os.FileInfo" {
+			continue
+		}
+		if strings.HasPrefix(c.name(fn), "cmd/") {
+			continue
+		}
+		if c.P.IsTestFile(fn.Pos()) || len(fn.Blocks) == 0 {
+			continue
+		}
+		var ep *ssa.Parameter
+		for _, q := range fn.Params {
+			if eng.TypeStr(q.Type()) == "error" {
+				ep = q
+			}
+		}
+		if ep == nil {
+			continue
+		}
+		n++
+		c.R.Analysed(c.name(fn))
+		con := c.name(fn) + "/error-argument-honoured"
+		x := c.explorer(fn)
+		as := map[string]bool{}
+		isEP := func(v ssa.Value) bool {
+			v = eng.Strip(v)
+			if v == ssa.Value(ep) {
+				return true
+			}
+			if mi, ok := v.(*ssa.MakeInterface); ok {
+				return eng.Strip(mi.X) == ssa.Value(ep)
+			}
+			return false
+		}
+		eng.Instrs(fn, func(in ssa.Instruction) {
+			switch v := in.(type) {
+			case *ssa.BinOp:
+				if (v.Op == token.EQL || v.Op == token.NEQ) && isEP(v.X) {
+					if k, isC := v.Y.(*ssa.Const); isC && k.IsNil() {
+						as[x.KeyAtEntry(v)] = v.Op == token.NEQ
+					}
+				}
+			case *ssa.Call:
+				// tolerance predicates: errors.Is(err, X), os.IsNotExist(err), a module helper of the error
+				if b, ok := v.Type().Underlying().(*types.Basic); ok && b.Kind() == types.Bool {
+					for _, a := range v.Call.Args {
+						if isEP(a) {
+							as[x.KeyAtEntry(v)] = false
+						}
+					}
+				}
+			}
+		})
+		if len(as) == 0 {
+			// handed on as it is (`return fn(p, e, err)`)? then the callee decides
+			forwards := false
+			eng.Instrs(fn, func(in ssa.Instruction) {
+				if call, ok := in.(ssa.CallInstruction); ok {
+					for _, a := range call.Common().Args {
+						if isEP(a) {
+							forwards = true
+						}
+					}
+				}
+			})
+			c.R.Check(forwards, rule, con, c.P.Pos(fn.Pos()), "the error argument is handed on", "the walk callback never looks at its error argument: a failure to read an entry is dropped, or the missing entry is dereferenced")
+			continue
+		}
+		// handing the error on (`return fn(path, info, err)`) leaves the decision to the callee
+		handsOn := func(in ssa.Instruction) bool {
+			call, ok := in.(ssa.CallInstruction)
+			if !ok {
+				return false
+			}
+			if rs := call.Common().Signature().Results(); rs.Len() == 1 {
+				if b, isB := rs.At(0).Type().Underlying().(*types.Basic); isB && b.Kind() == types.Bool {
+					return false
+				}
+			}
+			for _, a := range call.Common().Args {
+				if eng.TypeStr(a.Type()) == "error" && c.DerivesFrom(a, func(y ssa.Value) bool { return y == ssa.Value(ep) }, 4) {
+					return true
+				}
+			}
+			return false
+		}
+		hit, und := c.SuccessAvoiding(fn, nil, as, nil, handsOn)
+		switch {
+		case und:
+			c.R.Undecided(rule, con, c.P.Pos(fn.Pos()), "state limit")
+		case hit != nil:
+			c.R.Fail(rule, con, c.pos(hit.Instr), "the walk callback can return success although it was handed an error that none of its tolerance tests accepts; path "+eng.BlockTrace(fn, hit.Trace))
+		default:
+			c.R.OK(rule, con, c.P.Pos(fn.Pos()), "a non-nil error argument leads to a failing return (or a tolerated case)")
+		}
+	}
+	c.R.Floor(rule, "walk callbacks in the module", n, 11)
+}
+
+// dropOK: callees whose error may be left unread anywhere in the analysed
+// packages, with the reason. (Sites where an unread error would break a
+// property have rules of their own: R01.8, R04.3, R04.6, R13.x, R19.6.)
+var dropOK = map[string]string{
+	"(*os.File).Close":                     "closing on a path that already returns an error, or after the data was synced by a checked Close elsewhere (checked closes: R01.8, R19.6)",
+	"(io.Closer).Close":                    "as (*os.File).Close",
+	"os.Remove":                            "removal of something that may not exist (the listing file's previous entry, R19.6)",
+	"path/filepath.Match":                  "a malformed pattern matches nothing",
+	"io.WriteString":                       "formatting helpers (fmt.Formatter implementations) have nowhere to report to",
+	"syscall.CloseHandle":                  "windows: closing a handle on the way out",
+	"golang.org/x/sys/windows.CloseHandle": "windows: closing a handle on the way out",
+	"github.com/containerd/continuity/sysx.LSetxattr": "xattrs are applied best effort in the disk writer (R01.2)",
+}
+
+// errDisciplineAll is the drop half of E8 over whole packages: every call
+// whose callee returns an error has that error read by something (a test, a
+// return, a wrap, a store). A deleted `if err != nil { return err }` leaves
+// the error unread. Best-effort ERR/FIN sends, closes and the callees in
+// dropOK are exempt. (Whether a read error can still end in success is
+// decided by the rules that know the site: E8 proper in R01.8, R04.6, R13.x.)
+func errDisciplineAll(c *Ctx, rule string, floor int, pkgs ...string) {
+	c.R.Rule(rule, "packages "+strings.Join(pkgs, ", ")+": no error result is left unread (dropped), except best-effort ERR/FIN sends, closes and the tabled callees")
+	n := 0
+	for _, fn := range transferFuncs(c, pkgs...) {
+		if c.P.IsTestFile(fn.Pos()) || strings.Contains(c.P.Pos(fn.Pos()), ".pb.go") || strings.HasPrefix(c.name(fn), "cmd/") {
+			continue
+		}
+		for _, call := range eng.Calls(fn) {
+			if _, isDefer := call.(*ssa.Defer); isDefer {
+				continue
+			}
+			if _, isGo := call.(*ssa.Go); isGo {
+				continue
+			}
+			_, used, has := c.errValueOf(call)
+			if !has {
+				continue
+			}
+			name := c.P.CalleeName(call)
+			if errWrapNames[name] || strings.HasPrefix(name, "builtin:") {
+				continue
+			}
+			n++
+			con := c.siteName(call) + "/error-read"
+			switch {
+			case used:
+				c.R.OK(rule, con, c.pos(call), "the error is read")
+			case dropOK[name] != "":
+				c.R.OK(rule, con, c.pos(call), "unread by design: "+dropOK[name])
+			case strings.HasSuffix(name, ").Close"):
+				c.R.OK(rule, con, c.pos(call), "unread by design: "+dropOK["(*os.File).Close"])
+			default:
+				if ok, why := c.bestEffortSend(call); ok {
+					c.R.OK(rule, con, c.pos(call), "unread by design: "+why)
+					continue
+				}
+				c.R.Fail(rule, con, c.pos(call), "the error result of "+name+" is never read: a failure here goes unnoticed (an `if err != nil` was removed, or the result is assigned and overwritten)")
+			}
+		}
+	}
+	c.R.Floor(rule, "error-returning call sites", n, floor)
+}
+
+var errWrapNames = map[string]bool{
+	"github.com/pkg/errors.Wrap": true, "github.com/pkg/errors.Wrapf": true, "github.com/pkg/errors.WithStack": true,
+	"github.com/pkg/errors.WithMessage": true, "github.com/pkg/errors.Errorf": true, "github.com/pkg/errors.New": true,
+	"errors.New": true, "fmt.Errorf": true, "(context.Context).Err": true,
 }
